@@ -47,6 +47,9 @@ class RemoveEnclosingMiddleware(BlockMiddleware):
 
     @staticmethod
     def _strip_enclosing(value: str) -> Tuple[str, Union[str, None]]:
+        if not isinstance(value, str):
+            # E.g. an int: there is no enclosing to remove
+            return value, "no-enclosing"
         value = value.strip()
         if value.startswith("{") and value.endswith("}"):
             return value[1:-1], "{"
